@@ -123,7 +123,11 @@ func (l lit) describe() string {
 
 // position is one string-valued place of a request.
 type position struct {
-	Name  string
+	Name    string
+	Family  string // the position without its host query shape
+	Host    int    // index of the host query shape within the family
+	Hosts   int
+	Primary bool
 	Group string // mechanism that renders the literal (for signatures): StringVal | doLike | ident | none
 	// Build places s; ok=false when the position cannot express s (front-end quoting impossible).
 	// eff is the USER string as the front-end parser of that position yields it (normally s itself).
@@ -268,7 +272,7 @@ func (c *checker) getBaseline(p *position, shape string) (*baseline, error) {
 		if strings.Contains(strings.Join(sqls, "\n"), marker) {
 			return nil, fmt.Errorf("position %s: declared not to reach SQL but the marker does: %s", p.Name, strings.Join(sqls, "\n"))
 		}
-	} else if b.Slots == 0 {
+	} else if b.Slots == 0 && shape != "empty" {
 		return nil, fmt.Errorf("position %s: the harmless string %q is not found as a literal in the baseline SQL: %s", p.Name, bs, strings.Join(sqls, "\n"))
 	}
 	c.base[key] = b
